@@ -858,7 +858,36 @@ def rule_matchers_forward(ctx):
     ctx.floor("R4", "matcher front-ends over a FingerprintCollection", n, 4)
 
 
+def rule_structural_equality(ctx):
+    """R2: the index key of a signature is built from the text of its fields, the distance functions compare the fields with `==`:
+    the two agree only while `==` means equality of every field.  Every PartialEq / Eq / Hash impl of the database crate's types is
+    the derived one (a hand-written `eq` that looks at less - the discriminant, one field - accepts entries the index files elsewhere)"""
+    P = ctx.program
+    n = 0
+    for b in P.bodies.values():
+        it = b.raw.get("impl_trait") or ""
+        if b.crate != "huginn_net_db" or not (it.endswith("PartialEq") or it.endswith("cmp::Eq") or it.endswith("::Hash")):
+            continue
+        if b.name not in ("eq", "ne", "hash"):
+            continue
+        n += 1
+        ctx.check(b.from_macro, "R2", "structural-eq:%s" % T.short(b.impl_self or b.path), "derived %s" % it.rsplit("::", 1)[-1],
+                  "%s for %s is written by hand: signature fields compared by the distance functions are then equal when their index-key text differs "
+                  "(or the reverse), so a lookup misses entries a full scan would accept" % (it.rsplit("::", 1)[-1], T.short(b.impl_self or b.path)), ctx.loc(b))
+    ctx.floor("R2", "derived equality impls in huginn-net-db", n, 25)
+
+
+def rule_component_conditions(ctx):
+    """the index files an entry under the values its distance components compare: a component that accepts more than equality (an alias,
+    a one-sided test) accepts entries the lookup never consults (shared with C12.R12)"""
+    from ..engine import report as R
+    from . import C12
+    C12.rule_R12(R.Retag(ctx, "C12."))
+
+
 def run(ctx):
+    rule_component_conditions(ctx)
+    rule_structural_equality(ctx)
     rule_matchers_forward(ctx)
     rule_shared(ctx)
     rule_quality_table(ctx)
